@@ -408,6 +408,13 @@ def _decide_rule(run, ad, rule, key, K, NW):
             if r == "unsat":
                 continue
             if r == "sat":
+                # LOG/EXP are uninterpreted: a witness at a special point (u = 1, where the real log is 0; a zero seed) may not survive the float
+                # replay although generic points do -> ask for a GENERIC witness first (every symbol in [3/2, 5/2], pairwise different values)
+                gen = [z3.And(z3.Real(n_) >= Fraction(3, 2) + Fraction(i_, 16 * max(len(names), 1)), z3.Real(n_) <= Fraction(5, 2)) for i_, n_ in enumerate(names)]
+                gen += [z3.Real(a_) != z3.Real(b_) for i_, a_ in enumerate(names) for b_ in names[i_ + 1:]]
+                rg, mg = run.check_sat(list(assume) + gen + [it != ot], timeout_ms=20000, nl=True)
+                if rg == "sat":
+                    m = mg
                 vals = model_values(m, names)
                 case = {"kind": "rule", "rule": rule["name"], "k": k, "nw": nw, "cell": label,
                         "values": {n: [v.numerator, v.denominator] for n, v in vals.items()}}
